@@ -99,8 +99,15 @@ NumPred(op, c, v, cast) ==
 HasText(v, cast) == v.t = "S" \/ (cast /\ v.t \in {"B", "I", "F"})
 TextOf(v) == StrCast(v)
 
+(* Rust's Display for f64 prints the SHORTEST digits that round-trip, which is the exact decimal *)
+(* expansion only for short values; beyond 15 significant digits the text is not modelled.     *)
+TextKnown(v) == v.t # "F" \/ v.sp # "" \/ Len(StripLead(v.d)) + Len(StripTrail(v.fr)) <= 15
+RECURSIVE AllTextKnown(_)
+AllTextKnown(v) == IF v.t = "A" THEN \A i \in DOMAIN v.vs : TextKnown(v.vs[i]) ELSE TextKnown(v)
+
 StrPred(pat, v, cast) ==
   IF IsNone(v) THEN {"M"}
+  ELSE IF cast /\ ~AllTextKnown(v) THEN Tri
   ELSE IF HasText(v, cast) THEN TF(Matches(pat, TextOf(v)))
   ELSE IF v.t = "A"
        THEN IF \E i \in DOMAIN v.vs : HasText(v.vs[i], cast) /\ Matches(pat, TextOf(v.vs[i])) THEN {"T"}
@@ -175,7 +182,8 @@ OperandVal(o, doc) ==
   ELSE LET fv == Find(doc, o.f) IN
        IF o.k = "int" THEN IntCast(fv) ELSE IF o.k = "flt" THEN FltCast(fv)
        ELSE IF IsNone(fv) THEN CMiss
-       ELSE IF ~HasStr(fv) THEN CBad ELSE [t |-> "txt", s |-> StrCast(fv)]
+       ELSE IF ~HasStr(fv) THEN CBad
+       ELSE IF ~TextKnown(fv) THEN CUnk ELSE [t |-> "txt", s |-> StrCast(fv)]
 
 CmpCond(c, doc) ==
   LET x == OperandVal(c.l, doc) y == OperandVal(c.r, doc) IN
